@@ -77,6 +77,7 @@ MAP = [
  ("set_font / set_ansi_font / set_sauce_font record the font of the caret's page", "C08", "switch_to_font_page(1); set_font(custom); undo - slot 1 holds a copy of font 0; replace_font_usage(0,5); set_ansi_font(1); undo - slot 5 stays in the font table"),
  ("a chars-mode layer lets cells flagged invisible contribute", "C13", "alpha layer in chars mode whose invisible cell (attribute flag INVISIBLE) stores glyph 0xDC: Buffer::get_char shows 0xDC instead of nothing (law L8)"),
  ("cursor positioning in a file buffer is unbounded", "C03", "13-byte .ans file 'ESC[2147483647;1Hab': the cursor row of a non-terminal buffer is not limited, the next character makes the layer allocate 2^31 rows (51 GB requested); CUD/CNL/CUP/VPA/VPR/HVP alike (found when C02's text-number class deferred an allocation failure to C03)"),
+ ("rendering a layer image (sixel) that starts left of or above", "C07", "document with an image layer (role Image) at offset (-3,1): to_bytes(\"icy\") panics in Buffer::render_to_rgba (preview) with 'attempt to multiply with overflow'; a picture wider than the remaining row was copied into the next rows"),
  ("RIP button drawing visits every pixel of a button far larger", "C20", "!|R|1BZD00XMFZRLZ5|1U: about ten million put_pixel calls for one button"),
 ]
 
